@@ -142,6 +142,26 @@ static PomdpTables awkward() {
     return p;
 }
 
+// DESIGN §12 #26: the two vectors LinearSupport finds at the corners meet only on the edges b1 = 0 and b0 = 0 of the simplex;
+// findVerticesNaive does not find those edge vertices, so two more useful vectors are never discovered (seed 1, case 14 of the first run)
+static PomdpTables lsEdgeWitness() {
+    auto p = tables(3, 2, 2, 0.5);
+    p.T[0] << 0.125, 0.5, 0.375,  0.5, 0.25, 0.25,  0.0, 0.0, 1.0;
+    p.T[1] << 0.375, 0.375, 0.25,  0.0, 1.0, 0.0,  0.75, 0.0, 0.25;
+    p.R << 8.0, -0.25,  -4.0, -4.0,  3.5, 4.5;
+    p.Ob[0] << 0.375, 0.625,  0.5, 0.5,  0.5, 0.5;
+    p.Ob[1] << 0.75, 0.25,  1.0, 0.0,  0.5, 0.5;
+    return p;
+}
+
+// the Lean counterexample `cxNeg` (one state, rewards -1 and -3/2, discount 1/2): RTBSS(maxR = -1, h = 3) returns (1, -3/2), optimum is -7/4
+static PomdpTables cxNeg() {
+    auto p = tables(1, 2, 1, 0.5);
+    for (size_t a = 0; a < 2; ++a) { p.T[a](0, 0) = 1.0; p.Ob[a](0, 0) = 1.0; }
+    p.R(0, 0) = -1.0; p.R(0, 1) = -1.5;
+    return p;
+}
+
 void verif::verif_case(Rng & rng, long idx, const std::string & tier) {
     const bool thorough = tier == "thorough";
     if (idx == 0) { auto p = tiger(); runAll(p, 2, true, rng, 15, 4); runRTBSS(p, 2, true, rng, 2, true); return; }
@@ -151,16 +171,21 @@ void verif::verif_case(Rng & rng, long idx, const std::string & tier) {
         AIToolbox::Vector b(2); b << 0.5, 0.5;
         emitRTBSS("dense", p, d, 3, trueMaxR(p), b, true);
         emitRTBSS("dense", p, d, 3, 0.0, b, true);
+        auto q = cxNeg(); Dense dq = toDense(q);
+        AIToolbox::Vector b1(1); b1 << 1.0;
+        emitRTBSS("dense", q, dq, 3, -1.0, b1, true);
+        emitRTBSS("dense", q, dq, 3, 0.0, b1, true);
         return;
     }
+    if (idx == 3) { auto p = lsEdgeWitness(); runAll(p, 2, true, rng, 7, 4); return; }
     if (idx < kFixed) return;
 
     // ---- generated instances
     const int style = (int)rng.below(8);          // 0..4 dyadic, 5 duplicate action, 6 dominated action, 7 ugly (non-dyadic)
-    size_t S = (size_t)rng.range(2, 3), A = (size_t)rng.range(1, 2), O = (size_t)rng.range(1, 2);
+    size_t S = (size_t)rng.range(2, 3), A = 2, O = 2;
     if (rng.coin(1, 4)) S = (size_t)rng.range(2, thorough ? 4 : 3);
-    if (rng.coin(1, 5)) A = 3;
-    if (rng.coin(1, 5)) O = 3;
+    if (rng.coin(1, 8)) A = 1; else if (rng.coin(1, 4)) A = 3;
+    if (rng.coin(1, 8)) O = 1; else if (rng.coin(1, 4)) O = 3;
     unsigned h = (unsigned)rng.range(1, 3);
     if (A * O >= 9 && h == 3) h = 2;
     if (thorough && rng.coin(1, 10) && A * O <= 4) h = 4;
